@@ -189,4 +189,83 @@ theorem aroundUniformDensity_eq (minCos : K) (dir sample : V3 K) :
   simp only [dot_eq]
   rfl
 
+/-! ## `HGMaterial` density / BSDF, the Phong lobe and `PhongMaterial`
+
+`math.Pow` with a non-integer exponent stays the abstract libm operation `HasLibm.pow`: the models take its
+value as an argument (the harness passes the value Go computed), so the ties state that the generated
+functions are the models *applied to the generated `pow` expression*. -/
+
+theorem hgCosDensity_eq (k : Consts K) (hk : ConstsOk k) (g : K) (sc : V3 K) (b : Bool) (cos : K) :
+    render3d.HGMaterial_cosDensity ⟨g, g3 sc, b⟩ cos =
+      hgCosDensity (hgNumericalG k g)
+        (GenPrelude.HasLibm.pow (hgDivisor (hgNumericalG k g) cos) ((3 : K) / 2)) := by
+  unfold render3d.HGMaterial_cosDensity hgCosDensity hgDivisor
+  simp only [hgNumericalG_eq k hk]
+  try (congr 1 <;> first | rfl | ring | (congr 1 <;> first | rfl | ring))
+
+theorem hgSourceDensity_eq (k : Consts K) (hk : ConstsOk k) (g : K) (sc : V3 K) (b : Bool) (n s d : V3 K) :
+    render3d.HGMaterial_SourceDensity ⟨g, g3 sc, b⟩ (g3 n) (g3 s) (g3 d) =
+      hgCosDensity (hgNumericalG k g)
+        (GenPrelude.HasLibm.pow (hgDivisor (hgNumericalG k g) (s.dot d)) ((3 : K) / 2)) := by
+  unfold render3d.HGMaterial_SourceDensity
+  rw [dot_eq, hgCosDensity_eq k hk]
+
+theorem hgBSDF_eq (k : Consts K) (hk : ConstsOk k) (g : K) (sc : V3 K) (ign : Bool) (n s d : V3 K) :
+    render3d.HGMaterial_BSDF ⟨g, g3 sc, ign⟩ (g3 n) (g3 s) (g3 d) =
+      g3 (hgBSDF k sc ign n s (hgCosDensity (hgNumericalG k g)
+        (GenPrelude.HasLibm.pow (hgDivisor (hgNumericalG k g) (s.dot d)) ((3 : K) / 2)))) := by
+  unfold render3d.HGMaterial_BSDF hgBSDF
+  simp only [dot_eq, hgCosDensity_eq k hk, absS_eq, mx_eq, hk.hgEps, scale_eq]
+  cases ign <;> simp
+
+theorem aroundDirDensity_eq (alpha : K) (dir sample : V3 K) :
+    render3d.densityAroundDirection alpha (g3 dir) (g3 sample) =
+      aroundDirDensity alpha dir sample
+        (GenPrelude.HasLibm.pow (GenPrelude.HasLibm.pow (dir.dot sample) (alpha + 1)) (1 / (alpha + 1) - 1)) := by
+  unfold render3d.densityAroundDirection aroundDirDensity
+  simp only [decide_eq_true_eq]
+  simp only [dot_eq]
+  rfl
+
+/-- Go's `p.DiffuseColor != (Color{})` -/
+def hasDiffuse (dc : V3 K) : Bool :=
+  !(GenPrelude.feq dc.x 0 && GenPrelude.feq dc.y 0 && GenPrelude.feq dc.z 0)
+
+theorem phongSpecularDensity_eq (alpha : K) (sp dc ec ac : V3 K) (nf : Bool) (n s d : V3 K) :
+    render3d.PhongMaterial_specularDensity ⟨alpha, g3 sp, g3 dc, g3 ec, g3 ac, nf⟩ (g3 n) (g3 s) (g3 d) =
+      aroundDirDensity alpha (reflectNeg n d) s
+        (GenPrelude.HasLibm.pow (GenPrelude.HasLibm.pow ((reflectNeg n d).dot s) (alpha + 1)) (1 / (alpha + 1) - 1)) := by
+  unfold render3d.PhongMaterial_specularDensity
+  rw [reflectNeg_eq, aroundDirDensity_eq]
+
+theorem phongSourceDensity_eq (alpha : K) (sp dc ec ac : V3 K) (nf : Bool) (n s d : V3 K) :
+    render3d.PhongMaterial_SourceDensity ⟨alpha, g3 sp, g3 dc, g3 ec, g3 ac, nf⟩ (g3 n) (g3 s) (g3 d) =
+      phongSourceDensity (hasDiffuse dc)
+        (aroundDirDensity alpha (reflectNeg n d) s
+          (GenPrelude.HasLibm.pow (GenPrelude.HasLibm.pow ((reflectNeg n d).dot s) (alpha + 1)) (1 / (alpha + 1) - 1)))
+        n s := by
+  unfold render3d.PhongMaterial_SourceDensity phongSourceDensity hasDiffuse
+  simp only [phongSpecularDensity_eq]
+  have hl := lambertDensity_eq (⟨0, 0, 0⟩ : V3 K) ⟨0, 0, 0⟩ ⟨0, 0, 0⟩ n s d
+  simp only [g3] at hl
+  simp only [hl]
+  cases hc : (GenPrelude.feq dc.x 0 && GenPrelude.feq dc.y 0 && GenPrelude.feq dc.z 0) <;> simp [hc]
+
+theorem phongBSDF_eq (k : Consts K) (hk : ConstsOk k) (alpha : K) (sp dc ec ac : V3 K) (nf : Bool) (n s d : V3 K) :
+    render3d.PhongMaterial_BSDF ⟨alpha, g3 sp, g3 dc, g3 ec, g3 ac, nf⟩ (g3 n) (g3 s) (g3 d) =
+      g3 (phongBSDF k alpha nf (hasDiffuse dc) sp dc n s d
+        (GenPrelude.HasLibm.pow ((reflectNeg n s).dot d) alpha)) := by
+  unfold render3d.PhongMaterial_BSDF phongBSDF hasDiffuse
+  simp only [Bool.or_eq_true, decide_eq_true_eq]
+  simp only [dot_eq, reflectNeg_eq, maximumCosine_eq k hk, scale_eq]
+  -- the arithmetic of each branch is closed by `ring`, so that re-associated / commuted products in the source
+  -- (bit-identical in IEEE arithmetic as well) do not break the tie
+  cases hc : (GenPrelude.feq dc.x 0 && GenPrelude.feq dc.y 0 && GenPrelude.feq dc.z 0) <;>
+    cases nf <;> simp [hc] <;> split_ifs <;>
+    first
+    | rfl
+    | (simp only [add_eq, scale_eq, V3.add, V3.scale, model3d.Coord3D_Add, g3, model3d.Coord3D.mk.injEq]
+       refine ⟨?_, ?_, ?_⟩ <;> ring)
+    | (simp_all [add_eq, scale_eq, V3.add, V3.scale, model3d.Coord3D_Add]; done)
+
 end M3d.KernelsTie.RS
